@@ -11,7 +11,7 @@ Extraction "model.ml"
   slice_details at_index window_at window_setat
   ap_S shape_S ap_T broadcast_strides
   new_iter iter_next iter_reset iter_set_dir iter_all miter_next_validity miter_seek flat_next_valid flat_next_invalid
-  new_mult mult_next mult_reset hash_ints
+  new_mult mult_next mult_reset mult_set_dir mult_done hash_ints
   get_t is_materializable requires_iterator is_cm is_nc is_tr
   guard_op flag_soundb meta_inv_obs guard_slice
   zdot_nd zdot_nd_full zdot_nd_spec zdot_nd_spec_incr dot_nd_dispatch dot_nd_reuse_plain
